@@ -96,6 +96,12 @@ type TypeParamData struct {
 	Constraint types.Type
 }
 
+// ConstraintString returns the explicit type argument chosen for the
+// constraint, qualified for the file the mock is written to.
+func (t TypeParamData) ConstraintString() string {
+	return t.Var.QualifiedString(t.Constraint)
+}
+
 // ParamData is the data which represents a parameter to some method of
 // an interface.
 type ParamData struct {
